@@ -519,8 +519,25 @@ impl<const N: usize> Ex<N> {
             m => m,
         });
         let made = it.made.clone();
-        let b = self.bufs[x].as_mut().unwrap();
-        let r = crate::elem::window(|| b.extend(it));
+        let r = if st.c % 4 == 3 {
+            // the buffer as one half of a pair: `(buf, sink).extend(iter of pairs)` goes through
+            // `Extend::extend_reserve` / `extend_one` (what `unzip` uses); same model
+            struct Sink;
+            impl Extend<()> for Sink {
+                fn extend<I: IntoIterator<Item = ()>>(&mut self, i: I) {
+                    i.into_iter().for_each(drop)
+                }
+            }
+            let bx = self.bufs[x].take().unwrap();
+            let mut pair = (*bx, Sink);
+            let pr = &mut pair;
+            let r = crate::elem::window(move || pr.extend(it.map(|t| (t, ()))));
+            self.bufs[x] = Some(Box::new(pair.0));
+            r
+        } else {
+            let b = self.bufs[x].as_mut().unwrap();
+            crate::elem::window(|| b.extend(it))
+        };
         self.allocs += crate::alloc::take_op_allocs();
         if self.settle(r, false, out.own).is_none() {
             return out;
